@@ -17,6 +17,8 @@ import (
 	"os"
 	"os/exec"
 	"path/filepath"
+	"regexp"
+	"strconv"
 	"strings"
 	"time"
 )
@@ -30,6 +32,30 @@ type DriverRun struct {
 	Fails   []string `json:"fail_lines,omitempty"`
 	Output  string   `json:"output_tail"`
 	Seconds float64  `json:"seconds"`
+}
+
+// driverModelValues: integer arguments of the solver's counterexamples for
+// refuted bit-vector obligations, handed to the drivers as VERIF_MODEL_VALUES
+// so that the counterexample itself is replayed on the real code.
+var driverModelValues []string
+
+var bvModelRe = regexp.MustCompile(`define-fun arg_\w+ \(\) \(_ BitVec (\d+)\)\s+(#x[0-9a-fA-F]+|#b[01]+)`)
+
+func modelIntArgs(model string) []string {
+	var out []string
+	for _, m := range bvModelRe.FindAllStringSubmatch(model, -1) {
+		w, _ := strconv.Atoi(m[1])
+		base := 16
+		if m[2][1] == 'b' {
+			base = 2
+		}
+		u, err := strconv.ParseUint(m[2][2:], base, 64)
+		if err != nil {
+			continue
+		}
+		out = append(out, strconv.FormatInt(rtWrap(int64(u), w, true), 10))
+	}
+	return out
 }
 
 func runDrivers(o checkOpts) []DriverRun {
@@ -60,6 +86,9 @@ func runDrivers(o checkOpts) []DriverRun {
 		cmd := exec.CommandContext(ctx, "go", args...)
 		cmd.Dir = abs
 		cmd.Env = append(os.Environ(), "GOFLAGS=-mod=mod", "GOPROXY=off", "GOSUMDB=off", "GOTOOLCHAIN=local", fmt.Sprintf("VERIF_SEED=%d", o.seed))
+		if len(driverModelValues) > 0 {
+			cmd.Env = append(cmd.Env, "VERIF_MODEL_VALUES="+strings.Join(driverModelValues, ","))
+		}
 		var buf bytes.Buffer
 		cmd.Stdout = &buf
 		cmd.Stderr = &buf
